@@ -119,6 +119,39 @@ def run(ck, replay=None):
                 e["raised"] = 1
                 e["error"] = repr(ex)[:160]
             events.append(e)
+    # (b2) the caller's options on systems large enough for a real multigrid hierarchy (pyamg coarsens above 100 unknowns):
+    # ONE options dict (tight tolerances) serves two set-ups of one solver object and a second object; every solve has to
+    # reach the requested accuracy and the dict stays the caller's
+    import copy as _copy
+    for (s, form, backend) in ([((12, 10), "pressure", "amg"), ((12, 10), "flux_reduced", "amg"), ((12, 10), "pressure", "cg")] +
+                                ([] if quick else [((5, 5, 5), "pressure", "amg"), ((5, 5, 5), "flux_reduced", "amg"), ((16, 9), "pressure", "cg")])):
+        h = [rng.choice([1.0, 0.5]) for _ in s]
+        grid = darsia.Grid(tuple(s), h)
+        nf, nc = int(grid.num_faces), int(grid.num_cells)
+        fw = np.array([10 ** rng.uniform(-1.0, 1.0) for _ in range(nf)])
+        opts = {"formulation": form, "linear_solver": backend, "linear_solver_options": {"atol": 1e-12, "rtol": 1e-12, "maxiter": 3000}, "num_iter": 3}
+        snap = _copy.deepcopy(opts)
+        step = 0
+        try:
+            with warnings.catch_warnings():
+                warnings.simplefilter("ignore")
+                w1 = darsia.WassersteinDistanceNewton(grid, None, opts)
+                M = full_system(grid, int(w1.constrained_cell_flat_index), fw)
+                for (wobj, label) in ((w1, "first-setup"), (w1, "second-setup"), (None, "second-object")):
+                    if wobj is None:
+                        wobj = darsia.WassersteinDistanceNewton(grid, None, opts)
+                    rhs = random_rhs(rng, nf, nc, True)
+                    sol, _ = wobj.linear_solve(M.copy(), rhs.copy())
+                    ref = dense_solve(M, rhs)
+                    events.append({"tid": f"agree:options:{'x'.join(map(str, s))}:{form}:{backend}:{label}", "op": "agree", "form": form, "backend": backend, "shape": list(s),
+                                   "raised": 0, "errexp": exponent(relerr(np.asarray(sol, dtype=float), ref)),
+                                   "resexp": exponent(float(np.abs(M @ sol - rhs).max()) / max(1e-300, float(np.abs(rhs).max()))), "label": label})
+                    step += 1
+        except Exception as ex:  # noqa
+            events.append({"tid": f"agree:options:{'x'.join(map(str, s))}:{form}:{backend}:step{step}", "op": "agree", "form": form, "backend": backend, "shape": list(s),
+                           "raised": 1, "errexp": 3, "resexp": 3, "error": repr(ex)[:160], "label": f"step{step}"})
+        events.append({"tid": f"options:{'x'.join(map(str, s))}:{form}:{backend}", "op": "options", "form": form, "backend": backend, "shape": list(s),
+                       "unchanged": int(opts == snap)})
     # (c) reuse of a cached factorisation, histories from TLC
     grid = darsia.Grid((3, 3), [1.0, 0.5])
     nf, nc = int(grid.num_faces), int(grid.num_cells)
